@@ -19,11 +19,14 @@ CLAIMS = {
             'MIR.md\'s naming convention prescribes, and that every emitted interpreter code has a handler. Boundary-value arithmetic '
             'inside one signature is not decided.', '3 C02'),
     'C03': ('machine-code template discipline of the wrapper / basic-block wrapper / thunks (RF11), thunk redirection through the '
-            'code-write protocol (RF4d), label-operand position agreement between duplicator, simplifier and interpreter (RF7g)',
+            'code-write protocol (RF4d), label-operand position agreement between duplicator, simplifier and interpreter (RF7g), '
+            'interface switch protocol: single writer of the public address and thunk redirection on every setter path (RF31)',
             'Decides narrow structural necessary conditions of interface independence: the glue that switches a function from stub to '
             'generated code preserves every argument register and the stack, both thunk patterns have one size so retargeting never '
-            'overwrites a neighbour, redirection writes go through the protected code-write path, and label targets are rewired at the '
-            'same operand positions in every engine. Behavioural equivalence across interfaces and call orders is not decided.', '3 C03'),
+            'overwrites a neighbour, redirection writes go through the protected code-write path, label targets are rewired at the '
+            'same operand positions in every engine, the public address of a function is written once (the thunk) and every interface '
+            'setter and lazy handler re-targets that thunk on every path that can follow a fresh load. Behavioural equivalence across '
+            'interfaces and call orders is not decided.', '3 C03'),
     'C04': ('RF18 flag-producer preservation, RF7e extension-map agreement, RF7g label-operand positions, RF7b call-family coverage, '
             'RF28 alloca consolidation by path-wise linear forms, RF29 simplified memory operands, RF16j label forwarding-pointer scrub',
             'Decides that the link-time shortcut set is disjoint from overflow-flag producers, that result/argument extension maps agree '
